@@ -69,6 +69,16 @@ pub enum Damage {
     OutputWriteFails,
 }
 
+#[derive(Clone, Copy, Debug, PartialEq, Eq, Default, serde::Serialize, serde::Deserialize)]
+pub enum Layout {
+    #[default]
+    Plain,
+    /// the start file's name has a second dot (orders.v1.wsdl): the default output is orders.v1.rs
+    MultiDotName,
+    /// the sibling files are symbolic links to files kept elsewhere
+    SymlinkedSiblings,
+}
+
 #[derive(Clone, Debug, serde::Serialize, serde::Deserialize)]
 pub struct Case {
     pub input: u16,
@@ -79,6 +89,8 @@ pub struct Case {
     pub target: Target,
     pub damage: Damage,
     pub order: u16,
+    #[serde(default)]
+    pub layout: Layout,
 }
 
 fn arb_case(n_inputs: usize) -> impl Strategy<Value = Case> {
@@ -103,9 +115,10 @@ fn arb_case(n_inputs: usize) -> impl Strategy<Value = Case> {
             2 => Just(Damage::OutputWriteFails),
         ],
         any::<u16>(),
+        prop_oneof![4 => Just(Layout::Plain), 1 => Just(Layout::MultiDotName), 1 => Just(Layout::SymlinkedSiblings)],
     )
-        .prop_map(|(input, cwd, spelling, out, pre, target, damage, order)| {
-            let mut c = Case { input, cwd, spelling, out, pre, target, damage, order };
+        .prop_map(|(input, cwd, spelling, out, pre, target, damage, order, layout)| {
+            let mut c = Case { input, cwd, spelling, out, pre, target, damage, order, layout };
             // Bare needs the input directory as cwd; in other cwds it degrades to Relative
             if c.spelling == Spelling::Bare && c.cwd != Cwd::InputDir {
                 c.spelling = Spelling::Relative;
@@ -244,21 +257,19 @@ pub struct Verdict {
 }
 
 /// Build the sandbox, run the CLI, judge.
-pub fn evaluate(case: &Case, base: &FileSet, root: &Path) -> Verdict {
-    let _ = std::fs::remove_dir_all(root);
-    let indir = root.join("work").join("in");
-    let other = root.join("elsewhere");
-    std::fs::create_dir_all(&indir).unwrap();
-    std::fs::create_dir_all(&other).unwrap();
-    std::fs::create_dir_all(root.join("outdir")).unwrap();
-    let fs = damaged(base, case.damage);
+const NON_UTF8: [u8; 6] = [0xff, 0xfe, 0x00, 0x41, 0xc3, 0x28];
 
-    // create the files in a case-chosen order (directory enumeration order follows creation order
-    // on many file systems)
+/// Create the input directory: the files in a case-chosen order (directory enumeration order follows
+/// creation order or a hash of the names, depending on the file system), siblings optionally as
+/// symbolic links, the non-UTF-8 stray under the given name, first or last.
+fn populate(indir: &Path, elsewhere: &Path, fs: &FileSet, case: &Case, stray: &str, stray_first: bool) {
     let mut order: Vec<usize> = (0..fs.files.len()).collect();
     order.rotate_left(case.order as usize % fs.files.len().max(1));
     if case.order & 0x100 != 0 {
         order.reverse();
+    }
+    if case.damage == Damage::NonUtf8Sibling && stray_first {
+        std::fs::write(indir.join(stray), NON_UTF8).unwrap();
     }
     for i in &order {
         let (n, c) = &fs.files[*i];
@@ -269,13 +280,48 @@ pub fn evaluate(case: &Case, base: &FileSet, root: &Path) -> Verdict {
             std::fs::create_dir_all(indir.join(n)).unwrap();
             continue;
         }
+        if case.layout == Layout::SymlinkedSiblings && *n != fs.start {
+            let store = elsewhere.join("store");
+            std::fs::create_dir_all(&store).unwrap();
+            std::fs::write(store.join(n), c).unwrap();
+            let _ = std::fs::remove_file(indir.join(n));
+            std::os::unix::fs::symlink(store.join(n), indir.join(n)).unwrap();
+            continue;
+        }
         std::fs::write(indir.join(n), c).unwrap();
     }
-    if case.damage == Damage::NonUtf8Sibling {
-        std::fs::write(indir.join("zz-binary.xsd"), [0xffu8, 0xfe, 0x00, 0x41, 0xc3, 0x28]).unwrap();
+    if case.damage == Damage::NonUtf8Sibling && !stray_first {
+        std::fs::write(indir.join(stray), NON_UTF8).unwrap();
     }
     // unrelated non-xsd files never matter
     std::fs::write(indir.join("README.txt"), "not a schema").unwrap();
+}
+
+pub fn evaluate(case: &Case, base: &FileSet, root: &Path) -> Verdict {
+    let _ = std::fs::remove_dir_all(root);
+    let indir = root.join("work").join("in");
+    let other = root.join("elsewhere");
+    std::fs::create_dir_all(&indir).unwrap();
+    std::fs::create_dir_all(&other).unwrap();
+    std::fs::create_dir_all(root.join("outdir")).unwrap();
+    let mut fs = damaged(base, case.damage);
+    if case.layout == Layout::MultiDotName {
+        // a second dot in the start file's name (unless another file refers to it by name)
+        let old_name = fs.start.clone();
+        if !fs.files.iter().any(|f| f.0 != old_name && f.1.contains(&old_name)) {
+            if let Some((stem, ext)) = old_name.rsplit_once('.') {
+                let new_name = format!("{stem}.v1.{ext}");
+                for f in &mut fs.files {
+                    if f.0 == old_name {
+                        f.0 = new_name.clone();
+                    }
+                }
+                fs.start = new_name;
+            }
+        }
+    }
+    let fs = fs;
+    populate(&indir, &other, &fs, case, "zz-binary.xsd", false);
 
     let cwd = match case.cwd {
         Cwd::InputDir => indir.clone(),
@@ -408,6 +454,30 @@ pub fn evaluate(case: &Case, base: &FileSet, root: &Path) -> Verdict {
             None
         }
     };
+    let mut fail = fail;
+    if fail.is_none() && case.damage == Damage::NonUtf8Sibling && case.out == OutOpt::Default {
+        // whatever the tool does with an unreadable sibling, it must not depend on where the
+        // directory lists that sibling: same contents, other names and creation orders of the stray
+        let first = (exit == 0, now.clone());
+        for (k, (stray, stray_first)) in [("aa-binary.xsd", true), ("m0-binary.xsd", false), ("0.xsd", true), ("zzzz.xsd", true), ("B.xsd", false)].into_iter().enumerate() {
+            let twin_root = root.join(format!("twin{k}"));
+            let tin = twin_root.join("work").join("in");
+            let tel = twin_root.join("elsewhere");
+            std::fs::create_dir_all(&tin).unwrap();
+            std::fs::create_dir_all(&tel).unwrap();
+            populate(&tin, &tel, &fs, case, stray, stray_first);
+            let r = run_cli(&tin, &["--input".to_string(), tin.join(&fs.start).display().to_string()], false);
+            if r.timed_out || r.exit.is_none() {
+                continue;
+            }
+            let out = tin.join(&fs.start).with_extension("rs");
+            let got = (r.exit == Some(0), if out.is_file() { std::fs::read(&out).ok() } else { None });
+            if got.0 != first.0 || (got.0 && got.1 != first.1) {
+                fail = Some(("outcome-depends-on-where-the-directory-lists-a-sibling".to_string(), format!("stray sibling zz-binary.xsd created last: exit0={}; stray {stray} created {}: exit0={}", first.0, if stray_first { "first" } else { "last" }, got.0)));
+                break;
+            }
+        }
+    }
     Verdict { fail, expected_success, inconclusive: false }
 }
 
@@ -419,7 +489,7 @@ pub fn run(tier: Tier) -> i32 {
         "C17",
         tier,
         "exploration",
-        "proptest-generated CLI scenarios: input set (repository and generated schema/WSDL sets, optionally damaged: missing input, directory as input, non-UTF-8 sibling, malformed/empty start file, unresolved import, encoded binding, malformed imported file, a document that reads but fails while being written, an output file whose write fails half way under a file-size limit) x working directory (input dir / parent / unrelated) x path spelling (absolute, relative, ./, bare file name, dir/../dir) x output (default <input>.rs, --output absolute / relative) x pre-existing output (absent / shorter / longer than the new text) x output target (creatable, inside a missing directory, an existing directory) x file creation order in the directory. Oracle: exit 0 => output bytes equal the library's bytes for the same contents and nothing stale follows; exit != 0 => the pre-existing output is byte-identical (or still absent); where the library accepts the contents and the target is creatable the exit status must be 0 for every spelling. Non-trivial: non-absolute spelling, or pre-existing output, or a failing case; distinct by the whole scenario.",
+        "proptest-generated CLI scenarios: input set (repository and generated schema/WSDL sets, optionally damaged: missing input, directory as input, non-UTF-8 sibling, malformed/empty start file, unresolved import, encoded binding, malformed imported file, a document that reads but fails while being written, an output file whose write fails half way under a file-size limit) x working directory (input dir / parent / unrelated) x path spelling (absolute, relative, ./, bare file name, dir/../dir) x output (default <input>.rs, --output absolute / relative) x pre-existing output (absent / shorter / longer than the new text) x output target (creatable, inside a missing directory, an existing directory) x file creation order in the directory x layout (plain, a second dot in the start file's name, siblings as symbolic links). With a non-UTF-8 sibling the run is repeated with that sibling under other names and creation positions and must end the same way. Oracle: exit 0 => output bytes equal the library's bytes for the same contents and nothing stale follows; exit != 0 => the pre-existing output is byte-identical (or still absent); where the library accepts the contents and the target is creatable the exit status must be 0 for every spelling. Non-trivial: non-absolute spelling, or pre-existing output, or a failing case; distinct by the whole scenario.",
     );
     ev.assume("the checks run as root, so unreadable/unwritable permission bits cannot be used; an uncreatable target and a non-UTF-8 sibling stand in for them");
     ev.assume("library bytes are computed in-process from the same contents (requires C12 determinism, which holds on this tree)");
@@ -459,6 +529,7 @@ pub fn run(tier: Tier) -> i32 {
         ev.case(&format!("{c:?}"), nt);
         ev.class(&format!("spelling.{:?}", c.spelling));
         ev.class(&format!("damage.{:?}", c.damage));
+        ev.class(&format!("layout.{:?}", c.layout));
         if c.damage == Damage::WriterStageFailure && v.expected_success == Some(true) {
             // the fixture must fail in the writer; if it ever stops doing so the class is empty
             ev.class("damage.WriterStageFailure.fixture-no-longer-fails");
